@@ -1,19 +1,21 @@
 """C11, C12, C13 — outgoing notification queue (bluetoe/notification_queue.hpp)"""
+import os
 import re
 
-from vlib.core import Result
+from vlib.core import Result, LEAN_DIR
+from comp import attnotify as _attnotify
 
 NAME = "notifq"
 LEAN_MODULE = "BluetoeModel.NotifQueue"
 DRIVER = "drv_notifq"
-EXTRA_DRIVERS = []
-LEAN_DIRS = ["BluetoeModel/NotifQueue", "Driver/NotifQueue"]
+EXTRA_DRIVERS = ["drv_attnotify"]      # C11 also runs server level sessions on the AttNotify model
+LEAN_DIRS = ["BluetoeModel/NotifQueue", "Driver/NotifQueue", "BluetoeModel/AttNotify"]
 HARNESS_DESC = "harness/notifq.cpp (real notification_queue<tuple<integral_constant<int,N>...>, Mixin>)"
 HARNESS = {
     "default": dict(src="harness/notifq.cpp", ldflags=["-pthread"]),
     # no optimiser, no sanitizer: every C++ memory access is its own instruction (C13 granularity)
     "o0": dict(src="harness/notifq_o0.cpp", flags=["-O0", "-g", "-w"], ldflags=["-pthread"]),
-    "att": dict(src="harness/attnotify.cpp"),
+    "att": dict(_attnotify.HARNESS),      # the real server<>::l2cap_output (same binary as C10's harness)
 }
 
 CONFIGS = [[1], [2], [5], [1, 1], [1, 3], [3, 1], [4, 4, 1], [1, 2]]
@@ -245,7 +247,11 @@ def run_c12(ctx, replay_path=None):
 
 def run_c11(ctx, replay_path=None):
     res = run_queue(ctx, "C11", lambda key: any(key == "C11:" + k or key.startswith("C11:" + k) for k in C11_KEYS))
-    res.rule = RULE + "; C11 part of the oracle: no indication between an indication and the next confirmation/clear, a pending notification is always dequeued, after the drain nothing accepted is left"
+    res.rule = RULE + ("; C11 part of the oracle: no indication between an indication and the next confirmation/clear, a pending notification is always dequeued, after the drain nothing accepted is left"
+                       "; plus server level sessions through the real server<>::l2cap_output (harness/attnotify.cpp, comp/attnotify.py c11_sessions): an indication that is "
+                       "dequeued but not transmitted (not subscribed / not readable / buffer < 3) must not block later indications, an unsent notification must not confirm a "
+                       "transmitted indication; judged by the attnotify oracle and compared with the AttNotify model")
+    _attnotify.run_c11_sessions(ctx, res, key="att", model_exe=os.path.join(LEAN_DIR, ".lake", "build", "bin", "drv_attnotify"))
     return res
 
 
@@ -422,13 +428,16 @@ PROPS = {
                   N + "bad_length_confirmation_rejected", N + "good_confirmation_confirms",
                   N + "pending_until_dequeued", N + "pending_until_dequeued_reachable", N + "bounded_response",
                   N + "response_bound", N + "indication_bounded_response", N + "overtake_of_indication",
-                  N + "confirmed_dequeue_never_overtakes"],
-        witnesses=[N + "indication_starvation_witness"],
+                  N + "confirmed_dequeue_never_overtakes",
+                  "BluetoeModel.AttNotify.unsent_indication_does_not_block", "BluetoeModel.AttNotify.indication_not_held_back",
+                  "BluetoeModel.AttNotify.unsent_notification_keeps_outstanding", "BluetoeModel.AttNotify.at_most_one_outstanding"],
+        imports=["BluetoeModel.NotifQueue.Props", "BluetoeModel.AttNotify.Props"],
+        witnesses=[N + "indication_starvation_witness", "BluetoeModel.AttNotify.unsubscribed_indication_blocks_witness"],
         technique="Lean 4 invariant proof over all histories (trace predicate one_outstanding) on the refinement of C12 + differential correspondence",
         level_text="one_outstanding: in the output trace of every history on every partition no indication is dequeued between an indication and the next confirmation/clear; notifications_continue; pending_until_dequeued (a pending request stays pending until it is dequeued, every history without clear, every partition); indication_bounded_response: in every reachable state a pending indication of characteristic g is dequeued before the boundLv-th dequeue executed with no confirmation outstanding has completed (boundLv = 2*(characteristics of higher priority levels) + size of its level; exact measure waitLv = pending requests above + scan distance + 1), for every history that does not clear, does not queue on a higher priority level and contains no overtaking dequeue; overtake_of_indication: an overtaking dequeue only exists while a confirmation is outstanding and returns a notification of the same level (confirmed_dequeue_never_overtakes). Without that hypothesis the statement is false: indication_starvation_witness (known finding C11:indication-overtaken-while-unconfirmed). bad_length_confirmation_rejected / good_confirmation_confirms: model of server::handle_value_confirmation, tied to the real server by confpdu ops.",
         level_note="bounded response is proved on the specification and transferred to the implementation model by queue_refines_set; the excluded histories are exactly those with an overtaking dequeue (new known finding) or with requests on a higher priority level (by design).",
         run=run_c11,
-        harness_keys=["default"],
+        harness_keys=["default", "att"],
         level="proof",
         design_ref="§5 C11",
     ),
